@@ -47,7 +47,9 @@ SAFE_BUILTINS = {
     'len': len, 'chr': chr, 'ord': ord, 'range': range, 'all': all, 'any': any, 'sorted': sorted, 'min': min, 'max': max,
     'str': str, 'int': int, 'list': list, 'tuple': tuple, 'set': set, 'frozenset': frozenset, 'bool': bool, 'repr': repr,
     'enumerate': enumerate, 'zip': zip, 'reversed': reversed, 'sum': sum, 'isinstance': isinstance, 'type': type,
-    'dict': dict, 'abs': abs, 'OrderedDict': dict, 'bytes': bytes, 'float': float, 'round': round, 'divmod': divmod, 'map': map, 'filter': filter, 'namedtuple': collections.namedtuple, 'next': next, 'iter': iter,
+    'dict': dict, 'abs': abs, 'OrderedDict': dict, 'bytes': bytes, 'float': float, 'round': round, 'divmod': divmod, 'map': map, 'filter': filter, 'namedtuple': collections.namedtuple, 'next': next, 'iter': iter, 'callable': callable, 'hash': hash, 'id': id, 'pow': pow,
+    'Counter': collections.Counter, 'defaultdict': collections.defaultdict, 'ValueError': ValueError, 'KeyError': KeyError, 'TypeError': TypeError,
+    'Exception': Exception, 'IndexError': IndexError, 'AttributeError': AttributeError,
 }
 SAFE_ATTR_CALLS = {
     're.escape': re.escape, 're.compile': re.compile, 're.match': re.match, 're.fullmatch': re.fullmatch, 're.search': re.search,
@@ -218,6 +220,7 @@ class Interp:
         self.steps = 0
         self.consts = consts or {}
         self.on_call = None       # hook(func, args, kwargs) -> (handled, value)
+        self.modglobals = {}      # module name -> {global name: value} written through `global` statements
 
     # -------------------------------------------------------------- entry
     def call(self, f, args, kwargs=None, selfobj=None):
@@ -324,6 +327,10 @@ class Interp:
                 raise Unsupported('assertion of the interpreted function fails: %s' % ast.unparse(s.test))
         elif isinstance(s, ast.Pass):
             pass
+        elif isinstance(s, (ast.Global, ast.Nonlocal)):
+            if isinstance(s, ast.Nonlocal):
+                raise Unsupported('nonlocal')
+            env['#global'] = set(env.get('#global', ())) | set(s.names)
         elif isinstance(s, ast.With):
             # context managers are stand-ins supplied by the rule: bound as they are, left when the block is left
             opened = []
@@ -400,7 +407,10 @@ class Interp:
 
     def assign(self, t, v, env, mod):
         if isinstance(t, ast.Name):
-            env[t.id] = v
+            if t.id in env.get('#global', ()):
+                self.modglobals.setdefault(mod.name, {})[t.id] = v      # `global x` in the evaluated function
+            else:
+                env[t.id] = v
         elif isinstance(t, (ast.Tuple, ast.List)):
             vs = list(v)
             if len(vs) != len(t.elts):
@@ -421,10 +431,10 @@ class Interp:
                 o[self.expr(t.slice, env, mod)] = v
             elif isinstance(o, Obj):
                 o.items[self.expr(t.slice, env, mod)] = v
-            elif isinstance(o, Model):
+            elif isinstance(o, Model) or _foreign(self, o):
                 o[self.expr(t.slice, env, mod)] = v
             else:
-                raise Unsupported('subscript store')
+                raise Unsupported('subscript store on %s' % type(o).__name__)
         else:
             raise Unsupported('assignment target %s' % type(t).__name__)
 
@@ -444,8 +454,10 @@ class Interp:
                 env['#yield'].extend(self.expr(e.value, env, mod))
             return None
         if isinstance(e, ast.Name):
-            if e.id in env:
+            if e.id in env and e.id not in env.get('#global', ()):
                 return env[e.id]
+            if e.id in self.modglobals.get(mod.name, ()):
+                return self.modglobals[mod.name][e.id]
             if e.id in self.consts:
                 return self.consts[e.id]
             if e.id in ('True', 'False', 'None'):
@@ -519,6 +531,9 @@ class Interp:
                 return o[lo:hi:st]
             if isinstance(o, Obj):
                 k = self.expr(e.slice, env, mod)
+                gi = self.prog.lookup_method(o.cls.qn, '__getitem__') if o.cls is not None else None
+                if gi is not None:
+                    return self.invoke(gi, [k], {}, o)         # the class's own __getitem__
                 if k not in o.items:
                     raise KeyError(k)
                 return o.items[k]
@@ -697,7 +712,7 @@ class Interp:
                 return self.invoke(m, args, kwargs, o)
             for t, names in SAFE_METHODS.items():
                 if isinstance(o, t) and fn.attr in names:
-                    return getattr(o, fn.attr)(*args, **kwargs)
+                    return getattr(o, fn.attr)(*self._py(args), **{k: self._py1(v) for k, v in kwargs.items()})
             if isinstance(o, tuple) and o and o[0] == '#sym' and o[1].kind == 'class':
                 m = self.prog.lookup_method(o[1].target, fn.attr)
                 if m is not None:
@@ -768,8 +783,8 @@ class Interp:
 
     def _py1(self, v):
         """A lambda of the interpreted program as a Python callable (for sorted(key=...), map, filter ...)."""
-        if isinstance(v, tuple) and v and v[0] in ('#lambda', '#def'):
-            return lambda *a: self.apply(v, list(a), {})
+        if isinstance(v, tuple) and v and v[0] in ('#lambda', '#def', '#bound', '#sym') and not hasattr(type(v), '_fields'):
+            return lambda *a, **k: self.apply(v, list(a), dict(k))
         return v
 
     def _py(self, args):
